@@ -1200,9 +1200,19 @@ class TensorDict(TensorDictBase):
                     "batch_size and out.batch_size must be equal when both are provided."
                 )
             if device is not NO_DEFAULT and device != out.device:
-                raise RuntimeError(
-                    "device and out.device must be equal when both are provided."
-                )
+                if not checked:
+                    raise RuntimeError(
+                        "device and out.device must be equal when both are provided."
+                    )
+                else:
+                    # same rule as _apply_nest
+                    device = torch.device(device)
+                    out._device = device
+                    for node in out.values(True, True, is_leaf=_is_tensor_collection):
+                        if is_tensorclass(node):
+                            node._tensordict._device = device
+                        else:
+                            node._device = device
         else:
 
             def make_result(names=names, batch_size=batch_size):
